@@ -51,7 +51,9 @@ static econf_file *build_object(Src &s, std::string &desc, std::vector<std::pair
       text += "tv" + std::to_string(i) + sep + v + "\n";
     }
     write_file(g_scr.dir + "/obj.conf", text);
-    econf_err e = econf_readFile(&kf, (g_scr.dir + "/obj.conf").c_str(), f.D.c_str(), f.C.c_str());
+    int via = (int)s.weighted({60, 0, 20, 10, 10});
+    if (via) g_case.tag("object_from_layered_read");
+    econf_err e = read_via(via, g_scr.dir, "obj", f.D, f.C, &kf);
     VF_CHECK(e == ECONF_SUCCESS && kf, "harness", "reading the generated object failed rc=" << e << " file='" << esc(text) << "'");
     desc = "parsed D='" + esc(f.D) + "' C='" + f.C + "' file='" + esc(text) + "'";
     for (auto &l : f.lines) has_bare = has_bare || l.kind == L_BARE;
